@@ -227,7 +227,8 @@ class Check:
 
     def finding_for(self, key):
         for f in self.known:
-            if f.get("property") == self.prop and f.get("status") == "open" and f.get("key") == key:
+            if f.get("property") == self.prop and f.get("status") == "open" and (
+                    f.get("key") == key or (f.get("key", "").endswith("*") and key.startswith(f["key"][:-1]))):
                 return f
         return None
 
@@ -296,8 +297,11 @@ class Check:
             ev["violations"] = len(self.violations)
             with open(os.path.join(EVIDENCE, self.prop + ".json"), "w") as fh:
                 json.dump(ev, fh, indent=1, ensure_ascii=False)
+        agg = {}
         for k, n in sorted(self.known_hits.items()):
             f = self.finding_for(k)
+            agg[f["key"]] = (f, agg.get(f["key"], (f, 0))[1] + n)
+        for fk, (f, n) in sorted(agg.items()):
             print("KNOWN-FINDING: property=%s %s (%d explored inputs hit it)" % (self.prop, f["what"], n))
         for v in self.violations:
             print("VIOLATION property=%s replay=%s%s" % (self.prop, v["replay"], " no-failing-input-found" if v["no_input"] else ""))
